@@ -6,6 +6,7 @@ mod ans_replay;
 mod range;
 mod range_replay;
 mod models;
+mod backend_replay;
 
 fn main() {
     common::install_panic_hook();
